@@ -284,9 +284,9 @@ type byzRun struct {
 	// mustComplete > 0: this many honest members called, exactly as many as expected, and the misbehaving member never enters
 	// anybody's view: all of them complete
 	mustComplete int
-	honest   []*dinst
-	wedge    bool
-	note     string
+	honest       []*dinst
+	wedge        bool
+	note         string
 }
 
 func unitC07byz(e common.Env, p *common.Part) {
